@@ -313,6 +313,9 @@ func (env *SpecEnv) lookupIdent(name string) (SV, bool, error) {
 	}
 	if env.useCells {
 		base := name
+		if strings.HasPrefix(base, "rangeiter") {
+			base = "rangeint.iter" + base[len("rangeiter"):] // hidden counter of `for i := range n`
+		}
 		ord := 0
 		if i := strings.Index(name, "$"); i > 0 {
 			if n, err := strconv.Atoi(name[i+1:]); err == nil {
